@@ -31,6 +31,28 @@ def handlers : List (String × Handler) := [
     let r := lazyFrameBytes (← getNatList j "pd") (← getInt j "rows") (← getInt j "cols") (← getInt j "samples")
       (← getInt j "bits") (← getInt j "n") (← getStr j "pi") (← getInt j "k") (← getBool j "as_index")
     pure (exceptToJson natsToJson r)),
+  ("batchFramesBits", fun j => do
+    let ks ← match j.getObjVal? "ks" with
+      | .ok .null => pure none
+      | .ok _ => some <$> getIntList j "ks"
+      | .error _ => pure none
+    let r := memFramesBits (← getNatList j "pd") (← getInt j "rows") (← getInt j "cols") (← getInt j "samples")
+      (← getInt j "n") ks (← getBool j "as_index")
+    pure (exceptToJson (fun l => Json.arr (l.map boolsToJson).toArray) r)),
+  ("cached", fun j => do
+    -- frames are identified by their position 0..n-1; the single-frame image's whole array is frame 0
+    let n ← getNat j "n"
+    let sk := if (← getBool j "batch") then batchSkel else singleSkel
+    let r := sk.cached (List.range n) 0 (← getInt j "k") (← getBool j "as_index")
+    pure (exceptToJson (fun (i : Nat) => (i : Json)) r)),
+  ("cachedBatch", fun j => do
+    let n ← getNat j "n"
+    let ks ← match j.getObjVal? "ks" with
+      | .ok .null => pure none
+      | .ok _ => some <$> getIntList j "ks"
+      | .error _ => pure none
+    let r := cachedFrames (List.range n) 0 ks (← getBool j "as_index")
+    pure (exceptToJson natsToJson r)),
   ("getBot", fun j => do
     let r := getBot (← getNatList j "stored") (← getFrags j "frags") (← getNat j "n")
     pure (exceptToJson natsToJson r)),
